@@ -291,7 +291,6 @@ func pluginPasswords(r *Run, it Item) {
 
 // ---- stream models used by the call-site plug-in (assumed contracts from package io's documentation)
 
-
 // io.CopyN(dst, src, n): copies k <= n bytes; err == nil iff k == n
 func ioCopyNModel(x *Exec, fr *frame, ins ssa.CallInstruction, c *ssa.CallCommon, args []Val, st *State, r string) (Val, string) {
 	used("io.CopyN(dst, src, n): writes k <= n bytes to dst, returns (k, nil) iff k == n (otherwise a non-nil error)")
